@@ -6,7 +6,8 @@
 #   - then runs the property's check on the patched copy and records whether it was detected.
 set -u
 export GOFLAGS=-mod=mod GOPROXY=off GOSUMDB=off GOTOOLCHAIN=local
-wt=$1; prop=$2; name=$3; needs=$4
+wt=$1; prop=$2; name=$3; needs=$4; race=${5:-}
+RACE=""; [ "$race" = race ] && RACE="-race"
 [ -f "$wt/seed_patch.diff" ] || { echo "no seed_patch.diff in $wt"; exit 2; }
 [ -f "$wt/seeddemo/demo_test.go" ] || { echo "no seeddemo/demo_test.go in $wt"; exit 2; }
 S=$(mktemp -d /tmp/takeseed.XXXXXX); trap 'rm -rf "$S"' EXIT
@@ -14,12 +15,12 @@ mkdir -p $S/repo && rsync -a --exclude .git /repo/ $S/repo/
 mkdir -p $S/repo/seeddemo && cp $wt/seeddemo/*.go $S/repo/seeddemo/
 cd $S/repo
 echo "== demo WITHOUT the change"
-go test -count=1 -timeout 120s ./seeddemo/ > $S/clean.out 2>&1; cleanrc=$?
+go test $RACE -count=1 -timeout 180s ./seeddemo/ > $S/clean.out 2>&1; cleanrc=$?
 tail -3 $S/clean.out
 if ! patch -p1 -s --no-backup-if-mismatch < $wt/seed_patch.diff; then echo "PATCH DOES NOT APPLY"; exit 1; fi
 if ! go build ./builder/... ./context/... ./engine/... ./internal/... 2>$S/build.err; then echo "DOES NOT COMPILE"; cat $S/build.err | head; exit 1; fi
 echo "== demo WITH the change"
-go test -count=1 -timeout 120s ./seeddemo/ > $S/seeded.out 2>&1; seedrc=$?
+go test $RACE -count=1 -timeout 180s ./seeddemo/ > $S/seeded.out 2>&1; seedrc=$?
 tail -5 $S/seeded.out
 echo "== pinned suite WITH the change"
 rm -rf $S/repo/seeddemo.keep; mv $S/repo/seeddemo $S/seeddemo.keep
